@@ -412,3 +412,37 @@ def fork_regions(ctx, g):
     child, parent = regions
     by_id = {n.id: n for n in g.live}
     return fk, [by_id[i] for i in child], [by_id[i] for i in parent], Q.valuation_edges(decider(0))
+
+
+def call_keywords(ctx, call, module=None):
+    """[(name, value expr)] of the keyword arguments of a call, with `**{...}` displays and `**{k: f(k) for k in <constant
+    sequence>}` comprehensions expanded (the comprehension variable is substituted by each constant)"""
+    out = []
+    for kw in call.keywords:
+        if kw.arg is not None:
+            out.append((kw.arg, kw.value))
+            continue
+        v = kw.value
+        if isinstance(v, ast.Dict) and all(isinstance(k, ast.Constant) and isinstance(k.value, str) for k in v.keys):
+            out.extend((k.value, x) for k, x in zip(v.keys, v.values))
+        elif isinstance(v, ast.DictComp) and len(v.generators) == 1 and isinstance(v.generators[0].target, ast.Name) \
+                and not v.generators[0].ifs and isinstance(v.key, ast.Name) and v.key.id == v.generators[0].target.id:
+            seq = ctx.try_fold(v.generators[0].iter, module) if module is not None else ctx.try_fold(v.generators[0].iter)
+            if isinstance(seq, (tuple, list)) and all(isinstance(x, str) for x in seq):
+                var = v.generators[0].target.id
+
+                class Sub(ast.NodeTransformer):
+                    def __init__(self, val):
+                        self.val = val
+
+                    def visit_Name(self, n):
+                        if n.id == var and isinstance(n.ctx, ast.Load):
+                            return ast.copy_location(ast.Constant(value=self.val), n)
+                        return n
+                for x in seq:
+                    out.append((x, ast.fix_missing_locations(Sub(x).visit(A.clone(v.value)))))
+            else:
+                out.append((None, v))
+        else:
+            out.append((None, v))
+    return out
